@@ -997,10 +997,10 @@ PROPS["C10"] = dict(
 PROPS["C28"] = dict(
     corr_module="Corr.C28",
     streams={"hist": dict(runner="C28_run", in_t="C28_in", out_t="C28_out", shard=3, imports=["Model.Store", "Model.Reads", "Model.Persist"])},
-    n_quick=12, n_thorough=240,
-    corpus_seeds=[(28001, 2)],   # log growth inside a commit (lex-batch record), plain and after a reopen: caught a seeded reordering in update_embedded_lex_snapshot (catalog filled after append_lex_batch)
+    n_quick=15, n_thorough=240,
+    corpus_seeds=[(28001, 2), (28101, 1)],   # 28001: log growth inside a commit (lex-batch record), plain and after a reopen (caught a seeded reordering in update_embedded_lex_snapshot); 28101: a commit holding only delete_frame tombstones, then the four handles with frequent-OR-rare queries (catches a delete-only shortcut in rebuild_indexes that keeps stale BM25 statistics)
     harness_timeout=3000,
-    rule="histories of 6-22 ops on a real memory, three random profiles (general; blank / binary frames that break sketch-id density; instant-indexed puts with default options) and a fourth, steered profile (every fourth history, and the two corpus histories run first): the embedded log is driven adaptively (wal_stats / header_fields hooks: region size, pending bytes, checkpoint position; binary filler puts sized from the measured record overhead) until, with document records pending, the write head is a chosen 0..1200 bytes (swept in steps of 100 across histories) from the region end, so that the lex-batch record flush_tantivy appends INSIDE the commit makes the log region grow (tag log-grew-in-commit; variants: growth in the put just before the commit, two growths 64 -> 128 -> 256 KiB, growth in the commit of a handle reopened with the head near the end); the four-handle comparison runs immediately after that commit and again after the next put + commit; puts of short text / chunked text >= 2500 chars / whitespace-only / binary payloads, "
+    rule="histories of 6-22 ops on a real memory, three random profiles (general; blank / binary frames that break sketch-id density; instant-indexed puts with default options) and a fourth, steered profile (every fourth history, and the two corpus histories run first): the embedded log is driven adaptively (wal_stats / header_fields hooks: region size, pending bytes, checkpoint position; binary filler puts sized from the measured record overhead) until, with document records pending, the write head is a chosen 0..1200 bytes (swept in steps of 100 across histories) from the region end, so that the lex-batch record flush_tantivy appends INSIDE the commit makes the log region grow (tag log-grew-in-commit; variants: growth in the put just before the commit, two growths 64 -> 128 -> 256 KiB, growth in the commit of a handle reopened with the head near the end); the four-handle comparison runs immediately after that commit and again after the next put + commit; a fifth, scripted profile (every fifth history and one corpus history): two documents holding a rare / a frequent term, 4-7 filler documents sharing the frequent term, commit, (variants: reopen), a commit that holds ONLY delete_frame tombstones of all or all but one filler documents, then at once the four handles with doctor{rebuild_lex_index} forced, then one more put + commit + four handles; the battery has four OR queries over the frequent and the rare term whose answers carry the BM25 score bit patterns besides the hit order (the engine's document statistics must be those of the active frames on every handle); puts of short text / chunked text >= 2500 chars / whitespace-only / binary payloads, "
          "with or without a 4-dimensional embedding, explicit uris reused across frames, track / tag / label options, instant_index on or off, update_frame with and without payload / embedding on live, inactive and missing ids, delete_frame likewise, commit, reopen, exit-without-commit + reopen; "
          "at up to four fully committed points per history the file is byte-copied three times and FOUR handles are read: live, copy reopened read-write, copy opened read-only (Memvid::open_read_only), copy opened after doctor{rebuild_lex_index and/or rebuild_time_index, in half of the points also rebuild_vec_index}; "
          "compared with the model for each handle: frame count, engine documents holding the probe word, vector-index ids, vec enabled, time-index ids, sketch ids in track order (the reopened handles must show the renumbered ids 0..n-1), per-op result / frame_count / next_frame_id, "
